@@ -545,12 +545,15 @@ def oracle(line, res):
                 if (v * v - a) % mod != 0:
                     return bad("%s: returned value is not a square root" % op)
             else:
-                if a % p == 0:
+                # is a a square modulo `mod`?  (odd p: iff square mod p incl. 0;  mod 2: always;  mod 4: iff a%4 in {0,1})
+                if p > 2:
+                    is_sq = a % p == 0 or pow(a % p, (p - 1) // 2, p) == 1
+                else:
+                    is_sq = True if op == "sqrtp" else (a % 4 in (0, 1))
+                if is_sq and a % p == 0:
                     return bad("ibz_sqrt_mod_p reports 'no square root' for a = 0 mod p (0 is a square)", "sqrt_mod_p:a=0-mod-p")
-                if p > 2 and pow(a % p, (p - 1) // 2, p) == 1:
-                    return bad("%s: reports failure although a is a quadratic residue" % op)
-                if p == 2:
-                    return bad("%s: reports failure for odd a modulo 2" % op)
+                if is_sq:
+                    return bad("%s: reports failure although a is a square modulo %s" % (op, "p" if op == "sqrtp" else "2p"))
         elif op == "get":
             x = I(args[0]); v = I(R[0])
             if not (-2**63 <= v < 2**63 and (v - x) % 2**63 == 0 and (sgn(v) == sgn(x) or v == 0 or x == 0 or abs(x) % 2**63 == 0)):
